@@ -121,14 +121,15 @@ def run(ctx):
     fbin = vlib.build(ctx, "fold")
     lbin = vlib.build(ctx, "lang")
     # 1. the lemma on the corrected design, and the enumerated cases
-    r = vlib.tlc(ctx, "Fold", fold_cfg(False, True, ctx.thorough), label="Fold-ideal", timeout=2400, heap="12g")
+    # (every state of these runs is an initial state: more than two TLC workers only slow them down)
+    r = vlib.tlc(ctx, "Fold", fold_cfg(False, True, ctx.thorough), label="Fold-ideal", timeout=2400, heap="12g", workers=2)
     ideal = r.cases
     ctx.cov["exhaustive"] = True
     devs = [d for d in vlib.open_devs(ctx.prop)]
     if DEV in devs:
         vlib.expect_dev_counterexample(ctx, "Fold", fold_cfg(True, False, False), DEV, timeout=600)
-    ro = vlib.tlc(ctx, "Fold", fold_cfg(False, True, ctx.thorough, "open"), label="Fold-open", timeout=2400, heap="12g")
-    re_ = vlib.tlc(ctx, "Fold", edge_cfg(ctx.thorough), label="Fold-edge", timeout=2400, heap="12g")
+    ro = vlib.tlc(ctx, "Fold", fold_cfg(False, True, ctx.thorough, "open"), label="Fold-open", timeout=2400, heap="12g", workers=2)
+    re_ = vlib.tlc(ctx, "Fold", edge_cfg(ctx.thorough), label="Fold-edge", timeout=2400, heap="12g", workers=2)
     ideal = ideal + ro.cases + re_.cases
     ctx.cov["edge_family_cases"] = len(re_.cases)
     recs = [x for x in vlib.run_harness(ctx, fbin, cases=[{"e": c["e"], "fe": c["f"]["e"], "open": c.get("open", False)} for c in ideal], timeout=2400) if "full" in x]
